@@ -3031,8 +3031,12 @@ func (l *channelLink) processRemoteAdds(fwdPkg *channeldb.FwdPkg) {
 	decodeReqs := make([]hop.DecodeHopIteratorRequest, 0, len(fwdPkg.Adds))
 
 	// unackedAdds is a list of ADDs that's waiting for the remote's
-	// settle/fail update.
+	// settle/fail update, unackedIdx holds the index of each of them
+	// within the forwarding package: the package's filters and the
+	// AddRefs are keyed by that index, not by the position in the
+	// filtered list.
 	unackedAdds := make([]*lnwire.UpdateAddHTLC, 0, len(fwdPkg.Adds))
+	unackedIdx := make([]uint16, 0, len(fwdPkg.Adds))
 
 	for i, update := range fwdPkg.Adds {
 		// If this index is already found in the ack filter, the
@@ -3063,6 +3067,7 @@ func (l *channelLink) processRemoteAdds(fwdPkg *channeldb.FwdPkg) {
 
 			decodeReqs = append(decodeReqs, req)
 			unackedAdds = append(unackedAdds, msg)
+			unackedIdx = append(unackedIdx, uint16(i))
 		}
 	}
 
@@ -3086,7 +3091,7 @@ func (l *channelLink) processRemoteAdds(fwdPkg *channeldb.FwdPkg) {
 	var switchPackets []*htlcPacket
 
 	for i, update := range unackedAdds {
-		idx := uint16(i)
+		idx := unackedIdx[i]
 		sourceRef := fwdPkg.SourceRef(idx)
 		add := *update
 
